@@ -34,7 +34,7 @@ package packageonly
 
 // PKGO01 is reported once per file and type key: the first unsuppressed use marks the key
 //@ func findTypeViolation
-//@   props C04 C10
+//@   props C04 C07 C10
 //@   ghostparam packageAnnotations *annotations.PackageAnnotations
 //@   requires poCtxOK(ctx, packageAnnotations)
 //@   fresh
